@@ -25,6 +25,64 @@ CHECKS = {
         "programs are an exhaustive two-draw core plus seeded random programs, not all programs.",
         "3/C01",
     ),
+    "C02": (
+        "model_checking",
+        "TLA+ Checker.tla (requirement objects of a lattice program, truth from the exact Overlap.tla oracle, checker actions "
+        "Sort = any permutation / DropTrailingOptional / Eval / UpdateStats, BasicChecker) checked by TLC over program x assignment x "
+        "active set x order; bound to the code by running Scenario.generate once per RNG branch under four checker passes with a "
+        "scripted clock, auditing every verdict against SceneOK and validating every logged Eval trace with CheckerTrace.tla",
+        "TLC checks AcceptSound, OnlyOptionalSkipped, RejectSound, OrderIrrelevant, OptionalConsistent, ListMatchesReference, "
+        "StatsExact, InOrder for every assignment and order of every generated program; every accepted real scene must satisfy "
+        "SceneOK of its assignment, no assignment with SceneOK = T may be rejected, and the logged Eval sequences are accepted by "
+        "CheckerTrace.tla.",
+        "Lattice programs only, 3-D mode, visibility only in clear-cut configurations, touching = don't-care, seeded program sample, "
+        "permutations complete up to 5 active requirements.",
+        "3/C02",
+    ),
+    "C04": (
+        "model_checking",
+        "TLA+ Overlap.tla: exact integer oracle for unions of lattice boxes under the 24 cube rotations + the decision lists of "
+        "Object.intersects / MeshVolumeRegion.intersects / containsObject / PolygonalFootprintRegion.containsObject / "
+        "minimumDistanceTo as guarded exits over named exact quantities; TLC checks every exit sound, lists total, oracle lemmas; "
+        "bound to the code by replay of a stratified batch on the real objects (answers compared, exits probed with sys.monitoring)",
+        "TLC enumerates every configuration of the universe blocks and every internal choice and checks ExitsSound, DoneSound, "
+        "OracleLemmas and deadlock-freedom; the batch configurations are replayed on the real Object/Region code and intersects "
+        "(both directions), containsObject and minimumDistanceTo must equal the oracle unless the configuration touches.",
+        "Exact lattice sub-universe only (no generic angles, curved primitives, composed regions); touching = don't-care; known "
+        "findings fcl-convex-distance (third-party) and nested-nonconvex-distance.",
+        "3/C04",
+    ),
+    "C14": (
+        "fault_enumeration",
+        "TLA+ Lifecycle.tla (interpreter-state projection, proxies, override ledgers, fault disjunct in every state, cleanup of the "
+        "finally clause) model-checked by TLC incl. two named as-implemented deviations; bound to the code by exhaustive fault "
+        "enumeration (site x occurrence x ending x follow-up operation) with before/after snapshots and clean-process digests, and "
+        "by trace validation of wrapper-recorded events with LifecycleTrace.tla",
+        "For every fault schedule the real program raises at that point; the veneer globals named by the property, every tracked "
+        "property of every scene object and proxy identity must be unchanged afterwards, the follow-up operation must give the "
+        "digest a clean process gives, and the recorded begin/create/start/override/stop/read-back/destroy/unproxy/end trace must be "
+        "a behaviour of Lifecycle.tla (ideal constants); TLC also shows the ideal model satisfies Quiescent/SceneUntouched/"
+        "RevertOnStop and that each named deviation violates one of them.",
+        "One program template in two variants; model-import faults and Simulation.destroy faults are not injected; internal run "
+        "flags are diagnostic only; known finding current-behavior-restored-late.",
+        "3/C14",
+    ),
+    "C18": (
+        "fault_enumeration",
+        "TLA+ Codec.tla (scene writer/reader over the sample DAG with the seen set, byte-level integer fields, Truncate/Flip/Foreign "
+        "faults; strict reader = ideal, lenient reader = named deviation) and Replay.tla (record/replay/divergence step machine) "
+        "checked by TLC; bound to the code by replay: every sample of every program through sceneToBytes/sceneFromBytes, every "
+        "truncation point and representative byte changes, foreign readers, and every TLC behaviour of Replay.tla through "
+        "simulate/simulationToBytes/simulationFromBytes with scripted RNG and a perturbing simulator",
+        "TLC checks RoundTrip, FieldsExact, OnlySelected, TruncationRefused, CorruptionContained, HeaderGuards, ReplayEqual, "
+        "LongerReplayContinues, DivergenceDetectedBothSigns on every (program, sample, fault)/behaviour; on the real code every "
+        "truncation point of every distinct encoding must raise SerializationError, changed bytes give a scene or "
+        "SerializationError, foreign readers refuse, decoded scenes equal the originals, replays reproduce the run and report a "
+        "divergence iff |actual - expected| > tolerance in either direction.",
+        "Integer, float and Vector primitives only; representative flips per byte (truncation exhaustive per encoding); boundary "
+        "core + seeded random programs; harness-written deterministic simulator for replays.",
+        "3/C18",
+    ),
     "C12": (
         "model_checking",
         "TLA+ Dynamics.tla (the reference's ten-step procedure, one action per numbered step, plus a coroutine machine for "
